@@ -167,10 +167,10 @@ def structural(spec, fview, n, names, vals, p, sig, case, desc, stats):
         if any(q.kind == VP for q in params.values()):
             stats.fail('C19/struct/varargs-kept', case, '%s -> %s keeps *args after a positional-or-keyword parameter was bound by keyword' % (desc, sig))
     fnames = set(x for x, k, d in fview if k in (POK, KWO))
-    stars = set(x for x, k, d in fview if k in (VP, VK))
+    stars = set(q.name for q in params.values() if q.kind in (VP, VK))
     for x in names:
         if x in stars:
-            continue        # spelled like a star parameter: cannot be shown as a parameter of its own, **kwargs takes it
+            continue        # spelled like a star parameter that is still there: cannot be shown as a parameter of its own, **kwargs takes it
         if x not in params:
             stats.fail('C19/struct/bound-keyword-missing', case, '%s -> %s lacks the bound keyword %r' % (desc, sig, x))
             continue
@@ -228,7 +228,14 @@ def check_wrapper_partial(so, si, how, stats):
     g = realfn.load(src)
     try:
         w, callee = g['wrapper'], g['callee']
-        p = functools.partial(w, callee) if how == 'positional' else functools.partial(w, fn=callee)
+        bound_kw = {}
+        if how.startswith('positional+'):
+            # ... and a keyword of the callee bound through the partial object as well
+            kwn = sorted(cpbind.kwpassable(universe.spec_view(si)))
+            if not kwn or not has_vk:
+                return
+            bound_kw = {kwn[-1 if how.endswith('last') else 0]: 0}
+        p = functools.partial(w, callee, **bound_kw) if how.startswith('positional') else functools.partial(w, fn=callee)
         try:
             sig = sigtools.signature(p)
         except ValueError as e:
@@ -244,8 +251,8 @@ def check_wrapper_partial(so, si, how, stats):
                 stats.fail('C19/wrapper/keyword-resolved', case, '%s: discovery reports %s, plain signature is %s' % (desc, sig, plain))
             return
         resolved = [(q.name, q.kind) for q in sig.parameters.values()] != [(q.name, q.kind) for q in plain.parameters.values()]
-        stats.cls('wrapper/positional/%s' % ('resolved' if resolved else 'plain'))
-        p2 = PSub(w, callee)
+        stats.cls('wrapper/%s/%s' % (how, 'resolved' if resolved else 'plain'))
+        p2 = PSub(w, callee, **bound_kw)
         try:
             sig2 = sigtools.signature(p2)
         except ValueError:
@@ -262,6 +269,8 @@ def check_wrapper_partial(so, si, how, stats):
         alln = set(q.name for q in so) | set(q.name for q in si) | {'fn'}
         exact_ok = not any(q.kind in (PO, POK) and q.default is not None for q in so)
         for m, K in shapes():
+            if set(K) & set(bound_kw):
+                continue        # overriding the bound keyword: not what this clause is about
             if not all((k in kp) or (k not in alln) for k in K):
                 continue
             sa = rb.accepts(m, K)
@@ -468,7 +477,7 @@ def shard_wrappers(arg):
                 check_chain_partial(si, nb, st)
         check_sequence(si, st)
         check_wrapper_variants(so, si, st)
-        for how in ('positional', 'keyword'):
+        for how in ('positional', 'keyword', 'positional+kwfirst', 'positional+kwlast'):
             check_wrapper_partial(so, si, how, st)
     return st
 
